@@ -132,7 +132,7 @@ func R34() Rule {
 		n := 0
 		// finishUpload together with the helpers / lock-section methods it is split into
 		scope := P.Scope(fn, func(f *ssa.Function) bool {
-			return f.Pkg == nil || f.Pkg.Pkg.Path() != core.PkgGcsemu || f.Name() == "validateConds" || f.Name() == "fmtErrorfCode"
+			return core.PkgPathOf(f) != core.PkgGcsemu || f.Name() == "validateConds" || f.Name() == "fmtErrorfCode"
 		})
 		within := setOf(scope)
 		var failures []ssa.Instruction
